@@ -164,12 +164,17 @@ fn roundtrip_text(width: u8, be: bool, bom: bool, n: usize, cs: [u32; 3]) -> usi
 }
 
 /// (b) all 21 texts  c0 | c0 c1 | c0 c1 c2  with c1, c2 in SET (every index pair enumerated by a
-/// concrete loop, so each decode runs with concrete lengths) and c0 a SYMBOLIC ASCII character
-/// 0x01..=0x7F.  Returns a bit set of the length residues mod 4 that occurred.
-fn roundtrip_set(width: u8, be: bool, bom: bool) -> u8 {
-    let c0: u8 = kani::any();
-    kani::assume(c0 >= 1 && c0 <= 0x7F);
-    let c0 = c0 as u32;
+/// concrete loop, so each decode runs with concrete lengths).  c0 is 'a' (`symbolic_c0 == false`)
+/// or a SYMBOLIC ASCII character 0x01..=0x7F.  Returns a bit set of the length residues mod 4 that
+/// occurred.
+fn roundtrip_set(width: u8, be: bool, bom: bool, symbolic_c0: bool) -> u8 {
+    let c0: u32 = if symbolic_c0 {
+        let c: u8 = kani::any();
+        kani::assume(c >= 1 && c <= 0x7F);
+        c as u32
+    } else {
+        SET[0]
+    };
     let mut residues: u8 = 0;
     let l = roundtrip_text(width, be, bom, 1, [c0, 0, 0]);
     residues |= 1 << (l % 4);
@@ -189,33 +194,46 @@ fn roundtrip_set(width: u8, be: bool, bom: bool) -> u8 {
 }
 
 macro_rules! c17_roundtrip {
-    ($name:ident, $width:expr, $be:expr, $bom:expr, $residues:expr, $doc:literal) => {
+    ($name:ident, $symname:ident, $width:expr, $be:expr, $bom:expr, $residues:expr, $doc:literal) => {
         #[doc = $doc]
         ///
         /// Checks `load_tail(E(s)) == s` (load_tail = verbatim `decode_raw_bytes` + BOM strip of
-        /// `load`) for the 21 texts of 1..=3 scalars whose first scalar is any ASCII 0x01..=0x7F
-        /// (symbolic) and whose other scalars range over {U+0061, U+00E9, U+20AC, U+1F600}
-        /// (all index combinations enumerated); asserts that every length residue mod 4 the
-        /// encoding can produce occurred.  BOUNDED (texts of at most 3 scalars from that set).
+        /// `load`) for the 21 texts of 1..=3 scalars whose first scalar is 'a' and whose other
+        /// scalars range over {U+0061, U+00E9, U+20AC, U+1F600} (all index combinations
+        /// enumerated; all data concrete, CBMC acts as an interpreter of the real code); asserts
+        /// that every length residue mod 4 the encoding can produce occurred.
+        /// BOUNDED (21 texts).
         #[kani::proof]
         #[kani::unwind(18)]
         fn $name() {
-            let residues = roundtrip_set($width, $be, $bom);
+            let residues = roundtrip_set($width, $be, $bom, false);
+            assert!(residues == $residues, "C17 harness: length residues mod 4 not all covered");
+        }
+
+        #[doc = $doc]
+        ///
+        /// As the harness without `sym`, but the first scalar is ANY ASCII character 0x01..=0x7F
+        /// (symbolic; this makes the UTF-16/UTF-32 detection branches live for the solver).
+        /// BOUNDED (21 text shapes x 127 first characters).
+        #[kani::proof]
+        #[kani::unwind(18)]
+        fn $symname() {
+            let residues = roundtrip_set($width, $be, $bom, true);
             assert!(residues == $residues, "C17 harness: length residues mod 4 not all covered");
         }
     };
 }
 
-c17_roundtrip!(c17_rt_utf8, 1, false, false, 0b1111, "C17(b) UTF-8 without BOM, 1..=9 bytes.");
-c17_roundtrip!(c17_rt_utf8_bom, 1, false, true, 0b1111, "C17(b) UTF-8 with BOM, 4..=12 bytes.");
-c17_roundtrip!(c17_rt_utf16le, 2, false, false, 0b0101, "C17(b) UTF-16LE without BOM, 2..=10 bytes.");
-c17_roundtrip!(c17_rt_utf16le_bom, 2, false, true, 0b0101, "C17(b) UTF-16LE with BOM, 4..=12 bytes.");
-c17_roundtrip!(c17_rt_utf16be, 2, true, false, 0b0101, "C17(b) UTF-16BE without BOM, 2..=10 bytes.");
-c17_roundtrip!(c17_rt_utf16be_bom, 2, true, true, 0b0101, "C17(b) UTF-16BE with BOM, 4..=12 bytes.");
-c17_roundtrip!(c17_rt_utf32le, 4, false, false, 0b0001, "C17(b) UTF-32LE without BOM, 4..=12 bytes.");
-c17_roundtrip!(c17_rt_utf32le_bom, 4, false, true, 0b0001, "C17(b) UTF-32LE with BOM, 8..=16 bytes.");
-c17_roundtrip!(c17_rt_utf32be, 4, true, false, 0b0001, "C17(b) UTF-32BE without BOM, 4..=12 bytes.");
-c17_roundtrip!(c17_rt_utf32be_bom, 4, true, true, 0b0001, "C17(b) UTF-32BE with BOM, 8..=16 bytes.");
+c17_roundtrip!(c17_rt_utf8, c17_rtsym_utf8, 1, false, false, 0b1111, "C17(b) UTF-8 without BOM, 1..=9 bytes.");
+c17_roundtrip!(c17_rt_utf8_bom, c17_rtsym_utf8_bom, 1, false, true, 0b1111, "C17(b) UTF-8 with BOM, 4..=12 bytes.");
+c17_roundtrip!(c17_rt_utf16le, c17_rtsym_utf16le, 2, false, false, 0b0101, "C17(b) UTF-16LE without BOM, 2..=10 bytes.");
+c17_roundtrip!(c17_rt_utf16le_bom, c17_rtsym_utf16le_bom, 2, false, true, 0b0101, "C17(b) UTF-16LE with BOM, 4..=12 bytes.");
+c17_roundtrip!(c17_rt_utf16be, c17_rtsym_utf16be, 2, true, false, 0b0101, "C17(b) UTF-16BE without BOM, 2..=10 bytes.");
+c17_roundtrip!(c17_rt_utf16be_bom, c17_rtsym_utf16be_bom, 2, true, true, 0b0101, "C17(b) UTF-16BE with BOM, 4..=12 bytes.");
+c17_roundtrip!(c17_rt_utf32le, c17_rtsym_utf32le, 4, false, false, 0b0001, "C17(b) UTF-32LE without BOM, 4..=12 bytes.");
+c17_roundtrip!(c17_rt_utf32le_bom, c17_rtsym_utf32le_bom, 4, false, true, 0b0001, "C17(b) UTF-32LE with BOM, 8..=16 bytes.");
+c17_roundtrip!(c17_rt_utf32be, c17_rtsym_utf32be, 4, true, false, 0b0001, "C17(b) UTF-32BE without BOM, 4..=12 bytes.");
+c17_roundtrip!(c17_rt_utf32be_bom, c17_rtsym_utf32be_bom, 4, true, true, 0b0001, "C17(b) UTF-32BE with BOM, 8..=16 bytes.");
 
 /// a symbolic scalar value whose UTF-8 form has exactly `class` bytes (class 1 excludes U+0000;
 /// class 3 excludes the surrogates D800..DFFF)
